@@ -42,14 +42,19 @@ def is_pow2(fr):
 
 class World(object):
     """one PEP()-fresh universe of real PEPit objects.
-    repair: None | "prune-weights" (prune a composite's weights right after construction) |
-            "prune-queries" (prune a query point before the call) | "both" -- used to decide whether a violation is
-            exactly one of the two listed findings (the violation must disappear under the matching repair)."""
+    repair: a set of "prune-weights" (prune a composite's weights right after construction and recompute its flag),
+            "prune-queries" (prune a query point before the call), "skip-zero-function" (ignore stationary_point /
+            fixed_point / add_point on a composite all of whose weights cancel) -- used to decide whether a violation
+            is exactly one of the listed findings (the violation must disappear under the matching repair)."""
 
     def __init__(self, repair=None):
         from PEPit import PEP
         PEP()
-        self.repair = repair
+        if repair is None:
+            repair = ()
+        elif isinstance(repair, str):
+            repair = ("prune-weights", "prune-queries") if repair == "both" else (repair,)
+        self.repair = frozenset(repair)
         self.funcs = []
         self.fmap = T.IdMap()
 
@@ -150,7 +155,7 @@ class World(object):
     def _query(self, tree):
         from PEPit.tools.dict_operations import prune_dict
         p = self.build_point(tree)
-        if self.repair in ("prune-queries", "both") and not p.get_is_leaf():
+        if "prune-queries" in self.repair and not p.get_is_leaf():
             p.decomposition_dict = prune_dict(p.decomposition_dict)
         return p
 
@@ -173,7 +178,7 @@ class World(object):
             return "(NewLeaf %s)" % ("true" if op[1] else "false"), []
         if k == "Combine":
             F = self.build_combo(op[1])
-            if self.repair in ("prune-weights", "both"):
+            if "prune-weights" in self.repair:
                 # the composite as it would be if zero-weight terms were dropped at construction
                 F.decomposition_dict = prune_dict(F.decomposition_dict)
                 F.reuse_gradient = all(k.reuse_gradient for k in F.decomposition_dict)
@@ -191,6 +196,9 @@ class World(object):
                 return lit, [self.dump_p(g)]
             v = f.value(p)
             return lit, [self.dump_e(v)]
+        if k in ("Stationary", "Fixed", "AddPoint") and "skip-zero-function" in self.repair \
+                and not prune_dict(self.funcs[op[1]].decomposition_dict):
+            return "(* skipped *)", []
         if k == "Stationary":
             x = self.funcs[op[1]].stationary_point()
             return "(Stationary %s)" % coq_nat(op[1]), [self.dump_p(x)]
@@ -242,6 +250,7 @@ def run_ops(ops, full=True, repair=None, check=None):
         if check is not None:
             viol = check(w, i, op, st)
             if viol:
+                viol = dict(viol, at_op=i)
                 break
     final = w.dump_state()
     inp = "(%s, %s)" % ("true" if full else "false", coq_list(lits))
